@@ -317,14 +317,14 @@ next:;
 
         // If we didn't need the interpolation to begin with (maybe we didn't
         // find any points that can help us)..
-        if (basicV < v) {
+        if (basicV <= v) {
             retval.head(point.size()).noalias() = point;
 
             return std::make_tuple(basicV, std::move(retval));
         }
 
         retval.head(point.size()).noalias() = point - ubV.first[minI] * minC;
-        retval[minI] = minC;
+        retval[point.size() + minI] = minC;
 
         return std::make_tuple(v, std::move(retval));
     }
